@@ -79,7 +79,7 @@ func returnsUpdatedParam(fn *ssa.Function) (pi, ri int, ok bool) {
 }
 
 func checkThreadedState(p *Program, r *Report, rule string, entries []*ssa.Function, floor int) {
-	r.Rule(rule, "THREADED-STATE: in the undo closure, when a helper returns the updated version of a list it was given, the caller does not drop that result while it goes on using the list it passed in (each step must see what the previous step left)")
+	r.Rule(rule, "THREADED-STATE: in the closure of the entries, when a helper returns the updated version of a list it was given, the caller does not drop that result while it goes on using the list it passed in (each step must see what the previous step left)")
 	reach := p.StaticReach(entries...)
 	for _, e := range entries {
 		reach[e] = true
@@ -128,7 +128,7 @@ func checkThreadedState(p *Program, r *Report, rule string, entries []*ssa.Funct
 			}
 		}
 	}
-	r.Floor(rule, "calls of list-updating helpers in the undo closure", n, floor)
+	r.Floor(rule, "calls of list-updating helpers in the closure", n, floor)
 }
 
 // laterUse: some use of v (other than the call itself) is reachable after the
